@@ -16,6 +16,7 @@
 package main
 
 import (
+	"context"
 	"bufio"
 	"bytes"
 	"encoding/hex"
@@ -211,9 +212,25 @@ type IdleCase struct {
 	SetupErr string      `json:"setup_err,omitempty"`
 }
 
+// AgeCase: one session whose application->client direction is silent (in the
+// multiplexed tunnel: a read call that stays pending) while many newer calls
+// pass over the same control connection; then the application replies.
+type AgeCase struct {
+	Mode     string  `json:"mode"`
+	Calls    int     `json:"calls"`     // newer calls made while the read was pending
+	CallErrs int     `json:"call_errs"` // of which failed
+	FirstErr string  `json:"first_err,omitempty"`
+	Millis   int     `json:"ms"`
+	Reply    ConcDir `json:"reply"`     // the application's reply as the client got it
+	C2A      ConcDir `json:"c2a"`       // what the client sent first, as the application got it
+	ClientEnd string `json:"client_end,omitempty"` // how the client's read ended when the reply did not arrive
+	SetupErr string  `json:"setup_err,omitempty"`
+}
+
 type Case struct {
 	I      int        `json:"i"`
 	Stream string     `json:"stream"`
+	Age    *AgeCase   `json:"age,omitempty"`
 	Idle   *IdleCase  `json:"idle,omitempty"`
 	Conc   *ConcCase  `json:"conc,omitempty"`
 	Stage  *StageCase `json:"stage,omitempty"`
@@ -1254,6 +1271,102 @@ func runIdle(r *hx.Rng, mode string, levels []int) *IdleCase {
 	return res
 }
 
+// ---- age stream: a pending read grows old in call ids ----
+
+var ageCalls = 1<<17 + 1000
+
+func runAge(r *hx.Rng, mode string, calls int) *AgeCase {
+	res := &AgeCase{Mode: mode, Calls: calls}
+	const replyLen, c2a = 4096, 1024
+	lookup := func(domain string) (*sniproxy.Dest, error) {
+		if domain == "age.example" {
+			return &sniproxy.Dest{Name: "/ep0"}, nil
+		}
+		return nil, fmt.Errorf("bad domain %q", domain)
+	}
+	goAhead := make(chan struct{})
+	appDone := make(chan ConcDir, 1)
+	handler := func(ep string, conn net.Conn) {
+		defer conn.Close()
+		conn.SetDeadline(time.Now().Add(60 * time.Second))
+		br := bufio.NewReader(conn)
+		if _, err := e2e.ReadRecord(br); err != nil {
+			return
+		}
+		got := make([]byte, c2a)
+		n, rerr := io.ReadFull(br, got)
+		appDone <- checkTagged('C', 7, c2a, got[:n], rerr)
+		<-goAhead // silent towards the client until the newer calls have passed
+		conn.Write(tagged('A', 7, replyLen))
+		io.Copy(io.Discard, br)
+	}
+	w, err := e2e.NewWorld(mode, lookup, []string{"/ep0"}, handler)
+	if err != nil {
+		res.SetupErr = err.Error()
+		return res
+	}
+	defer w.Close()
+	conn, err := w.DialFront()
+	if err != nil {
+		res.SetupErr = "front dial: " + err.Error()
+		return res
+	}
+	defer conn.Close()
+	conn.SetDeadline(time.Now().Add(60 * time.Second))
+	conn.Write(append(append([]byte{}, e2e.SynthHello("age.example", true, 0)...), tagged('C', 7, c2a)...))
+	select {
+	case res.C2A = <-appDone:
+	case <-time.After(10 * time.Second):
+		res.SetupErr = "the application did not receive the client's first bytes"
+		return res
+	}
+	// newer calls over the same control connection, many at a time
+	cl := w.Server.VerifLookup("/ep0")
+	if cl == nil {
+		res.SetupErr = "endpoint client not found"
+		return res
+	}
+	t0 := time.Now()
+	var wg sync.WaitGroup
+	var mu sync.Mutex
+	const workers = 48
+	for k := 0; k < workers; k++ {
+		wg.Add(1)
+		go func(k int) {
+			defer wg.Done()
+			ctx, cancel := context.WithTimeout(context.Background(), 50*time.Second)
+			defer cancel()
+			for i := k; i < calls; i += workers {
+				if _, err := cl.Hello(ctx, "x"); err != nil {
+					mu.Lock()
+					res.CallErrs++
+					if res.FirstErr == "" {
+						res.FirstErr = err.Error()
+					}
+					mu.Unlock()
+					if res.CallErrs > 100 {
+						return
+					}
+				}
+			}
+		}(k)
+	}
+	wg.Wait()
+	res.Millis = int(time.Since(t0) / time.Millisecond)
+	close(goAhead)
+	conn.SetReadDeadline(time.Now().Add(10 * time.Second))
+	got := make([]byte, replyLen)
+	n, rerr := io.ReadFull(conn, got)
+	res.Reply = checkTagged('A', 7, replyLen, got[:n], rerr)
+	if rerr != nil {
+		res.ClientEnd = classify(rerr)
+		if rerr == io.ErrUnexpectedEOF {
+			res.ClientEnd = "eof"
+		}
+	}
+	return res
+}
+
 // ---- e2e stream ----
 
 type appPlan struct {
@@ -1600,6 +1713,8 @@ func plan(seed uint64, n, e2eN int, big, huge bool) []spec {
 	for i := 0; i < 10; i++ {
 		ss = append(ss, spec{stream: "stage", seed: r.U64(), a: 2})
 	}
+	// a read that stays pending while many newer calls pass (multiplexed tunnel)
+	ss = append(ss, spec{stream: "age", seed: r.U64(), mode: "legacy", a: ageCalls})
 	// many open, silent sessions of one endpoint, then an active one
 	for _, mode := range e2e.Modes {
 		ss = append(ss, spec{stream: "idle", seed: r.U64(), mode: mode})
@@ -1713,6 +1828,8 @@ func runSpec(i int, s spec) (c Case) {
 		c.Stage = runStage(r, s.a)
 	case "conc":
 		c.Conc = runConc(r, s.mode, 8, s.a, s.b)
+	case "age":
+		c.Age = runAge(r, s.mode, s.a)
 	case "idle":
 		c.Idle = runIdle(r, s.mode, []int{1, 4, 5, 6, 9, 10, 11, 63, 64, 65, 127, 128, 129, 130, 300})
 	case "e2e":
@@ -1752,6 +1869,7 @@ func main() {
 	e2eN := flag.Int("e2e", 30, "number of generated end-to-end cases (after the corpus)")
 	big := flag.Bool("big", false, "include the 1 MiB + 3 payloads end to end")
 	huge := flag.Bool("huge", false, "include 4 MiB + 1 and 16 MiB + 5 payloads end to end")
+	flag.IntVar(&ageCalls, "agecalls", ageCalls, "newer calls that pass while a read is pending (age stream)")
 	child := flag.Bool("child", false, "child mode")
 	from := flag.Int("from", 0, "first case (child)")
 	mem := flag.Uint64("mem", 8<<30, "address-space limit of the child")
@@ -1772,7 +1890,8 @@ func main() {
 		}
 		return
 	}
-	args := []string{"-seed", strconv.FormatUint(*seed, 10), "-n", strconv.Itoa(*n), "-e2e", strconv.Itoa(*e2eN)}
+	args := []string{"-seed", strconv.FormatUint(*seed, 10), "-n", strconv.Itoa(*n), "-e2e", strconv.Itoa(*e2eN),
+		"-agecalls", strconv.Itoa(ageCalls)}
 	if *big {
 		args = append(args, "-big")
 	}
